@@ -132,6 +132,20 @@ func init() {
 		deepOK := hs(nest("[", "]", 3000, `{"a":"b"}`))
 		deepBad := hs(nest("[", "]", 10001, "1"))
 		deepN := 0
+		// entry points mixed on one reader, then documents exactly at / just over the depth limit
+		small := []string{"[[[]]]", `{"a":{"b":{}}}`, `[{"a":[{}]}]`, "1", `"s"`}
+		lims := []string{hs(nest("[", "]", 10000, "")), hs(nest("[", "]", 10001, "")), hs(nest(`{"a":`, "}", 10000, "{}")), hs(nest(`[{"a":`, "}]", 5000, "1")), hs(nest(`[{"a":`, "}]", 5001, "1"))}
+		for _, op1 := range []string{"rv", "ro", "ra"} {
+			for _, op2 := range []string{"rv", "ro", "ra"} {
+				for _, sm := range small {
+					for _, lm := range lims {
+						if r.chance(1, 3) || thorough {
+							e.emit("rhist %s:%s %s:%s %s:%s", op1, hs([]byte(sm)), op2, lm, op1, hs([]byte(sm)))
+						}
+					}
+				}
+			}
+		}
 		errAt := []string{`[1,2,`, `{"a":[1,{"b":`, `[[[[[[1,]]]]]]`, `{"a":1e999}`, `["\ud800\u"]`, `[`, `{"a"`}
 		for i := 0; i < n; i++ {
 			k := 3 + r.intn(12)
